@@ -418,6 +418,7 @@ func lifecycleMain(rc *RunCtx) {
 	}
 	w.Link = func() (simnet.LinkCfg, simnet.LinkCfg) { return drawSysLink(st) }
 	killed := false
+	killing := false // set at the step at which the deletion is about to begin
 	killedFlag := func() bool { return killed }
 	npeers := st.Choice(5)
 	if spec.Sparse || bulk {
@@ -495,7 +496,7 @@ func lifecycleMain(rc *RunCtx) {
 	join := &Join{n: ncallers}
 	rctx, rcancel := context.WithCancel(context.Background())
 	defer rcancel()
-	opNames := []string{"GetStats", "GetAvailable", "DropPeer", "GetPeer", "GetPeers", "GetKnown", "GetKnowns", "GetConf", "SetConf", "Request-wait", "Request", "AddKnown", "Have", "BadPeer", "Announce", "Expire", "Reader", "NewPeer", "HTTP-root", "HTTP-peers", "Server-handshake", "Kill-again"}
+	opNames := []string{"GetStats", "GetAvailable", "DropPeer", "GetPeer", "GetPeers", "GetKnown", "GetKnowns", "GetConf", "SetConf", "Request-wait", "Request", "AddKnown", "Have", "BadPeer", "Announce", "Expire", "Reader", "NewPeer", "HTTP-root", "HTTP-peers", "Server-handshake", "Add-duplicate", "Kill-again"}
 	doOp := func(c int, op int) {
 		rec := &callRec{caller: c, op: opNames[op], started: rc.S.Now(), afterKill: killed}
 		calls = append(calls, rec)
@@ -575,6 +576,35 @@ func lifecycleMain(rc *RunCtx) {
 			simrt.Sleep(time.Duration(st.Choice(3000)) * time.Millisecond)
 			far.Close()
 		case 21:
+			// the same torrent is added a second time (the UI does that when
+			// a link is pasted twice): refused while the first one lives,
+			// and the refused object answers like a dead torrent
+			if magnet {
+				break
+			}
+			t0, err := tor.ReadTorrent("", bytesReader(spec.Torrent))
+			if err != nil {
+				break
+			}
+			t2, err := tor.AddTorrent(context.Background(), t0)
+			if err == nil && t2 != t && !killing {
+				rc.Fail("C17", "duplicate-added", "", "AddTorrent of a hash that is already running succeeded with another object")
+			}
+			if err != nil {
+				// whatever we got back must not hang its caller
+				t0.GetStats()
+				t0.GetConf()
+				ctx, cancel := context.WithTimeout(context.Background(), 20*time.Second)
+				t0.Kill(ctx)
+				cancel()
+			} else if t2 != nil && t2 != t {
+				// added after the first one was deleted: it is the scenario's to clean up
+				w.Torrents = append(w.Torrents, t2)
+				ctx, cancel := context.WithTimeout(context.Background(), 20*time.Second)
+				t2.Kill(ctx)
+				cancel()
+			}
+		case 22:
 			ctx, cancel := context.WithTimeout(context.Background(), 20*time.Second)
 			t.Kill(ctx)
 			cancel()
@@ -600,7 +630,6 @@ func lifecycleMain(rc *RunCtx) {
 	// connections that are handed to the torrent at the very step at which
 	// its deletion begins (every phase of the teardown is a yield point
 	// away): each must end up closed
-	killing := false
 	var lateFar []*simnet.Conn
 	nlate := 0
 	if !magnet && st.Bool(1, 2) {
@@ -657,6 +686,15 @@ func lifecycleMain(rc *RunCtx) {
 		if err != nil && !errors.Is(err, tor.ErrTorrentDead) {
 			rc.Fail("C17", "kill-hangs", "", "Kill: %v", err)
 			return
+		}
+		if err == nil {
+			// Kill has returned: the deletion is complete, now
+			if g := tor.Get(hash.Hash(spec.InfoHash)); g == t {
+				rc.Fail("C17", "still-listed", "when-kill-returned", "Kill returned nil and the torrent is still listed")
+			}
+			if !chClosed(t.Deleted) {
+				rc.Fail("C17", "not-deleted", "when-kill-returned", "Kill returned nil before the deletion had completed")
+			}
 		}
 	}
 	killed = true
